@@ -856,6 +856,75 @@ func checkC13(ci interface{}, st *Stats) (err error) {
 		}
 	}
 
+	// ---------- parsley.Evaluate: the value of the tree parsley.Parse returns ----------
+	if c.Alts == 0 {
+		type evalOut struct {
+			val      string
+			failed   bool
+			evalLog  string
+			problems []string
+		}
+		run := func(viaEvaluate bool) (out evalOut, perr error) {
+			e, root, _ := c.fresh()
+			if c.FailTrans >= 0 && len(transformers) > 0 {
+				e.failTrans = transformers[c.FailTrans%len(transformers)].id
+			}
+			if c.FailEval >= 0 {
+				e.failEval = c.FailEval % total
+			}
+			f := text.NewFile("f", []byte(strings.Repeat("x", total+64)))
+			ctx := parsley.NewContext(parsley.NewFileSet(f), text.NewReader(f))
+			ctx.EnableTransformation()
+			ctx.EnableStaticCheck()
+			prepared := parser.Func(func(ctx *parsley.Context, l data.IntMap, pos parsley.Pos) (parsley.Node, data.IntSet, parsley.Error) {
+				return root, data.EmptyIntSet, nil
+			})
+			defer func() {
+				if r := recover(); r != nil {
+					perr = fmt.Errorf("panic: %v", r)
+				}
+			}()
+			var v interface{}
+			var err error
+			if viaEvaluate {
+				v, err = parsley.Evaluate(ctx, prepared)
+			} else {
+				var res parsley.Node
+				if res, err = parsley.Parse(ctx, prepared); err == nil {
+					var everr parsley.Error
+					if v, everr = parsley.EvaluateNode(ctx.UserContext(), res); everr != nil {
+						err = everr
+					}
+				}
+			}
+			var el []string
+			for _, l := range e.log {
+				if strings.HasPrefix(l, "eval") {
+					el = append(el, l)
+				}
+			}
+			return evalOut{fmt.Sprint(v), err != nil, strings.Join(el, ";"), e.problems}, nil
+		}
+		two, perr := run(false)
+		if perr != nil {
+			return fmt.Errorf("Parse + EvaluateNode: %v", perr)
+		}
+		one, perr := run(true)
+		if perr != nil {
+			return fmt.Errorf("Evaluate: %v", perr)
+		}
+		if len(one.problems) > 0 {
+			return fmt.Errorf("Evaluate: %s", one.problems[0])
+		}
+		if one.failed != two.failed || (!one.failed && one.val != two.val) || one.evalLog != two.evalLog {
+			return fmt.Errorf("Evaluate (both passes enabled): failed=%v value %s interpreter calls [%s]; Parse followed by EvaluateNode on the returned tree: failed=%v value %s calls [%s]",
+				one.failed, one.val, one.evalLog, two.failed, two.val, two.evalLog)
+		}
+		if !one.failed {
+			st.Class("Evaluate compared with Parse + EvaluateNode (a value)")
+		}
+	}
+
 	d := treeDepth(c.Root)
 	st.Class(fmt.Sprintf("depth %d", min(d, 6)))
 	if total > 5 {
